@@ -1340,7 +1340,14 @@ class VM:
         if isinstance(obj, JSArrayBuffer):
             if key_str == "byteLength":
                 return obj.byteLength
-            return obj.get(key_str)
+            if obj.has(key_str) or key_str in obj._getters:
+                return obj.get(key_str)
+            if key_str == "constructor":
+                return self.globals.get("ArrayBuffer", UNDEFINED)
+            object_proto = getattr(self.globals.get("Object"), "_prototype", None)
+            if isinstance(object_proto, JSObject):
+                return self._get_property(object_proto, key_str)
+            return UNDEFINED
 
         if isinstance(obj, JSTypedArray):
             # Typed array index access (canonical index strings only: no "01", "+1", "-0")
@@ -1369,7 +1376,15 @@ class VM:
             typed_array_methods = ["toString", "join", "subarray", "set"]
             if key_str in typed_array_methods:
                 return self._receiver_method(self._make_typed_array_method, obj, key_str)
-            return obj.get(key_str)
+            if obj.has(key_str) or key_str in obj._getters:
+                return obj.get(key_str)
+            if key_str == "constructor":
+                return self.globals.get(obj._type_name, UNDEFINED)
+            # hasOwnProperty, isPrototypeOf ...: what every object inherits
+            object_proto = getattr(self.globals.get("Object"), "_prototype", None)
+            if isinstance(object_proto, JSObject):
+                return self._get_property(object_proto, key_str)
+            return UNDEFINED
 
         if isinstance(obj, JSArray):
             # Array index access (canonical index strings only: no "01", "+1", "-0")
